@@ -18,7 +18,7 @@ EXTRA = {
  "C03": " Flows are built in 1-4 dimensions (above 2 flowjax carries key-dependent permutation layers that a save/load cycle must keep). The flow is also built by Aspire itself (init_flow) for a problem with a periodic parameter whose data sit on the wrap point. Aspire-built flows are also drawn from through Aspire.sample_flow (eighth round; found and led to the repair of a genuine defect).",
  "C06": " A share of the swarm runs the emcee-driven SMC variant and a few cases BlackJAXSMC (stand-in blackjax): both forward the schedule options to the shared loop themselves; one sampler object also serves two sample() calls with different options.",
  "C07": " The emcee-driven variant (much of it with a non-linear ramp) and BlackJAXSMC (stand-in blackjax) are judged by the same bisection oracle.",
- "C11": " For every other durable state the live-dictionary route first runs a continuation that is interrupted before its next checkpoint and then resumes AGAIN from the dictionary the caller still holds (found and led to the repair of a genuine defect). Real-flow scenarios in 2 and 3 dimensions. preconditioning='flow' in the crash loop: with the real zuko back-end (one case quick, six thorough) and with the stub back-end in the generic swarm (the stub is trainable-like: a refit starts from its current state). 'The process dies after the final checkpoint was delivered' is one more durable state of every scenario; a sixth route hands the sampling arguments over through resume_from_file(resume_kwargs=...). BlackJAXSMC (stand-in random-walk blackjax) is in the crash loop since the eighth round: crashed at eager likelihood calls (one drawn call per case in quick, every call in thorough), resumed from the last payload the callback received with the same key and generator seed; its first run found that the jax key was not checkpointed (repaired).",
+ "C11": " For every other durable state the live-dictionary route first runs a continuation that is interrupted before its next checkpoint and then resumes AGAIN from the dictionary the caller still holds (found and led to the repair of a genuine defect). Real-flow scenarios in 2 and 3 dimensions. preconditioning='flow' in the crash loop: with the real zuko back-end (one case quick, six thorough) and with the stub back-end in the generic swarm (the stub is trainable-like: a refit starts from its current state). 'The process dies after the final checkpoint was delivered' is one more durable state of every scenario; a sixth route hands the sampling arguments over through resume_from_file(resume_kwargs=...). BlackJAXSMC (stand-in random-walk blackjax) is in the crash loop since the eighth round: crashed at eager likelihood calls (one drawn call per case in quick, every call in thorough), resumed from the last payload the callback received with the same key and generator seed; its first run found that the jax key was not checkpointed (repaired). A seventh route resumes from the same bytes written to a plain .pkl file, named by its path.",
  "C12": " A quarter of the context scenarios do fit() inside the same auto_checkpoint context, another quarter make an earlier sampling call in it; 'loadable by the documented route' is executed for real (resume_from_file, then sample_posterior() with no arguments, on a scratch copy of the file) once per distinct durable state. Two sampler-level runs of one fixed schedule into one file with a cadence longer than the run (same pickled length, other content); the file is also compared with what the sampler acknowledged last, independently of the storage seam. The second-crash stage also continues through resume_from_file(resume_kwargs={... checkpoint_every ...}). An eighth of the crash-loop cases run the emcee-driven SMC variant. The proposal in the file must reproduce the log_q of the stored checkpoint's particles (c12.stale_proposal); a share of the context scenarios refit between two calls in one context.",
  "C17": " BlackJAXSMC's own call sites run too (stand-in blackjax): the jax twin of the model checks that a log-prior is attached at trace time and, through jax.debug.callback, that it is the prior of exactly the points the compiled kernel evaluates. Pool cases pass parallelize_prior on.",
  "C15": " Direct conversions are explored too: a seeded stateful machine over a pool of sample sets (every class x namespace x width x optional-field subset), each shadowed by a plain-array model, in which to_namespace(T) for every ordered pair and to_numpy() compose with select / concatenate / pickle / dict round trips and with each other; every converted set must equal the model incl. class, temperature, attached evidence, target namespace and the same float width (found three genuine defects, repaired). The conversion operation also asks for a width in the call itself where the method offers the option (BaseSamples.to_namespace / to_numpy with dtype=).",
